@@ -90,6 +90,8 @@ def gen_scenario(seed, k):
             "p_nonzero": r.choice([1.0, 1.0, 0.5, 0.15]),
             "tape_seed": r.getrandbits(48),
         })
+    if mode == "cache" and r.random() < 0.6:
+        p["use_vars"] = True  # "same arch text, different variables" is the interesting cache_dir case
     if mode == "warm_other":
         # history across specs: the same (simulated) worker process first maps a *different* spec
         # and keeps its process caches; a memo cache whose key omits an argument then serves stale
